@@ -53,7 +53,7 @@ def main():
         if not det:
             missed.append(name)
     json.dump(dict(head=head, results=res), open(os.path.join(V, "seeded", "REGRESSION.json"), "w"), indent=1)
-    for tool in ("translate.py", "py2lean.py", "py2lean_typed.py", "py2lean_frag.py"):
+    for tool in ("translate.py", "py2lean.py", "py2lean_typed.py", "py2lean_frag.py", "py2lean_comp.py"):
         sh([sys.executable, os.path.join(V, "tools", tool), "--repo", "/repo", "--out", os.path.join(V, "lean", "Cpl", "Gen")])
     print("detected %d / %d applicable; missed: %s; not applicable to this HEAD: %s" % (
         len(dirs) - len(missed) - len(skipped), len(dirs) - len(skipped), missed, skipped))
